@@ -4,6 +4,7 @@
  *     C <src> <dst>       copy <src> to <dst>; if <src> cannot be read, write "ABSENT" to <dst>
  *     S <target> <link>   create a symbolic link <link> -> <target>
  *     M <dir>             mkdir
+ *     D <dir>             rmdir (an empty directory the server created for an output)
  * It prints one line per step ("ok"/"fail <errno text>") so the client sees what happened inside the sandbox.  */
 #include <stdio.h>
 #include <string.h>
@@ -27,6 +28,7 @@ int main(int argc, char **argv) {
             i += 3; }
         else if (!strcmp(op, "S") && i + 2 < argc) { r = symlink(argv[i + 1], argv[i + 2]); i += 3; }
         else if (!strcmp(op, "M") && i + 1 < argc) { r = mkdir(argv[i + 1], 0755); i += 2; }
+        else if (!strcmp(op, "D") && i + 1 < argc) { r = rmdir(argv[i + 1]); i += 2; }
         else { printf("bad-op %s\n", op); return 3; }
         if (r == 0) printf("ok %s\n", op); else printf("fail %s %s\n", op, strerror(errno));
     }
